@@ -13,11 +13,24 @@ import Tough.Props.C03
 import Tough.Proofs.ClientTrace
 import Tough.Proofs.ClientRerun
 import Tough.Proofs.ExceptDec
+import Tough.Proofs.ClientCoh
 namespace Tough.C15
 open Tough.Sig Tough.Client Tough.C03
 
 /-- the datastores an interrupted cycle can leave behind -/
 def crashStates (c : Cyc) (ds : Datastore) : List Datastore := ds :: (c.run ds).2.states
+
+/-- **the list of crash states is complete**: the datastore a cycle ends with — whether it ran to its end
+or stopped with an error — is one of them, because the model's datastore changes only through operations
+that log the state they produce (`cycle_tracked`: every step of the cycle either leaves datastore and
+history alone or ends with the datastore it logged last) -/
+theorem crash_states_complete (c : Cyc) (ds : Datastore) : (c.run ds).2.ds ∈ crashStates c ds := by
+  have h := cycle_coherent (cfg := c.cfg) (srv := c.srv) c.shipped ds
+  unfold crashStates Cyc.run
+  rw [h]
+  cases hs : (cycle c.cfg c.srv c.shipped ⟨ds, []⟩).2.states with
+  | nil => simp
+  | cons a l => simp
 
 theorem all_of_grows {G : Datastore → Prop} (hinv : ∀ a b : Datastore, a.trust = b.trust → G b → G a)
     {st st' : St} (a : ∀ d ∈ st.states, G d) (g0 : G st.ds) (g1 : G st'.ds)
